@@ -38,7 +38,9 @@ type Request struct {
 }
 
 func newRequest(msg message.Message) *Request {
-	return &Request{msg: msg, reply: make(chan message.Message)}
+	// reply is buffered so that a response racing with the waiter's last timeout
+	// never blocks the goroutine that reads from the socket
+	return &Request{msg: msg, reply: make(chan message.Message, 1)}
 }
 
 func (r *Request) GetResponse(done <-chan struct{}, respDuration time.Duration) (message.Message, bool) {
@@ -155,6 +157,8 @@ func (pConn *PFCPConn) SendPFCPMsg(msg message.Message) {
 
 func (pConn *PFCPConn) sendPFCPRequestMessage(r *Request) (message.Message, bool) {
 	pConn.pendingReqs.Store(r.msg.Sequence(), r)
+	// forget the request on every exit, also after the last timeout or a shutdown
+	defer pConn.pendingReqs.Delete(r.msg.Sequence())
 
 	pConn.SendPFCPMsg(r.msg)
 	retriesLeft := pConn.upf.maxReqRetries
